@@ -25,6 +25,8 @@
 #define V_MAXSZ ((size_t)1 << 40)   /* object sizes are below this by precondition of the specs */
 #endif
 
+typedef int v_va_list;               /* va_list: abstract */
+typedef unsigned long v_fnptr;     /* pointer to function: opaque code address */
 static int __exc;                  /* ghost exception code of the extracted code: 0 = none (DESIGN 3.1) */
 static size_t v_mc_off[2];          /* ghost: tracked offsets inside the next copies */
 static int v_errno;
